@@ -678,7 +678,9 @@ def _dag_lookup_map(facts, body, t, src_ok):
                     m = {('upvar', k): v for k, v in enumerate(cl[2])}
                     cr = drop_lv(subst(interp(facts, cb).ret, m))
                     for st in subterms(cr):
-                        if is_call(st, 'get') and len(st[2]) == 2 and param_path(st[2][0]) == (1, ('dag',)) and versionless(st[2][1]) == ('param', 2):
+                        # (`get_key_value(h)` hands back the map's own key next to the node: the same pair)
+                        if is_call(st, ('get', 'get_key_value')) and len(st[2]) == 2 and param_path(st[2][0]) == (1, ('dag',)) \
+                                and versionless(st[2][1]) == ('param', 2):
                             return True
         return False
     # loop form: one fill of the returned local, in a complete loop over the source, reached exactly when dag holds the item
